@@ -7,6 +7,8 @@ proof : lean/GeosModel/Props/C09.lean — `read (write c g) = ok (canon c g)` fo
         compound_empty_section_unreadable), each with a concrete witness replayed here on the implementation.
 tie   : byte-exact correspondence against the library built from the current tree (harness/c09.cpp):
           wkb-write            GEOS' bytes (writer object + legacy context functions, binary + HEX) == model `write`
+          wkb-write-seq        one REUSED writer object: two geometries in a row + settings read back == model (write is a
+                               function of settings and geometry only; no state leaks from one write into the next)
           wkb-read             GEOS' accept/reject + decoded tree (reader object + legacy, binary + HEX) == model `read`
           wkb-roundtrip-model  GEOS' own write->read->rewrite == model `read (write …)` (plain + mixed + special shapes)
         and the property-level oracle
@@ -261,6 +263,7 @@ def run(ctx):
     shards = min(verif.NPROC, 8)
     plan = [  # (harness stream, driver stream, n, role)
         ("wkb-write", "wkb-write", 1500 if quick else 25000, "corr"),
+        ("wkb-write-seq", "wkb-write-seq", 12000 if quick else 200000, "corr"),
         ("wkb-read", "wkb-read", 250000 if quick else 4000000, "corr"),
         ("wkb-roundtrip-mixed", "wkb-roundtrip-model", 20000 if quick else 350000, "corr"),
         ("wkb-roundtrip", "wkb-roundtrip", 30000 if quick else 550000, "oracle"),
@@ -317,6 +320,17 @@ def run(ctx):
             continue
         name, ds = item
         extra = 0
+        if name == "wkb-write-seq":
+            # the model's `write` is a function of (settings, geometry): a reused writer whose second output or whose settings
+            # differ has state that leaks from one write into the next - the sequence is the failing input (the second geometry
+            # no longer round-trips under the settings the caller selected)
+            idx, case, exp, got = ds[0]
+            sig = {"stream": name, "effect": "writer-state-depends-on-history"}
+            if ctx.violation("a reused WKBWriter gives different bytes / settings after writing another geometry first: impl=%s model=%s" % (exp[-60:], got[-60:]),
+                             {"kind": "failing-input", "stream": name, "case": case, "impl": exp, "model": got,
+                              "replay_cmd": "%s replay <file with line 'wkb-write-seq <case>'>" % exe, "signature": sig}, signature=sig):
+                found_input += 1
+            continue
         for idx, case, exp, got in ds:
             toks = case.split()
             rt = None
@@ -376,8 +390,8 @@ def replay(ctx, path):
     for pre in ("instance of", "witness"):
         if stream.startswith(pre):
             stream = "wkb-read" if "(wkb-read)" in stream else "wkb-roundtrip"
-    dstream = {"wkb-write": "wkb-write", "wkb-read": "wkb-read"}.get(stream, "wkb-roundtrip-model")
-    hstream = stream if stream in ("wkb-write", "wkb-read") else "wkb-roundtrip"
+    dstream = {"wkb-write": "wkb-write", "wkb-read": "wkb-read", "wkb-write-seq": "wkb-write-seq"}.get(stream, "wkb-roundtrip-model")
+    hstream = stream if stream in ("wkb-write", "wkb-read", "wkb-write-seq") else "wkb-roundtrip"
     i = harness_eval(exe, hstream, [case])
     m = driver_eval(dstream, [case])
     print("case  :", case)
